@@ -5,6 +5,10 @@ from plumpy.process_states import (Command, Continue, Created, Excepted, Finishe
                                    ProcessState, Running, State, Stop, Wait, Waiting)
 from plumpy.processes import Process
 from plumpy.workchains import WorkChain
+from plumpy.exceptions import UnsuccessfulResult
+from plumpy.lang import NULL
+import plumpy.lang
+import asyncio
 import plumpy.workchains
 
 CONFIG = {
@@ -17,6 +21,7 @@ CONFIG = {
         'plumpy.process_states.Created.args': 'tuple',
         'plumpy.process_states.Created.kwargs': 'dict',
     },
+    'class_invariants': {'plumpy.process_states.Continue': 'wf_continue'},
     'user_havoc': 'all',
     'protected_classes': ['plumpy.base.state_machine.State', 'plumpy.process_states.Command',
                           'plumpy.base.state_machine.StateMachine'],
@@ -86,3 +91,147 @@ def _action_command(self, command):
     replay('continue_fn', 'action_command')
     replay('continue_args', 'action_command')
     replay('continue_kwargs', 'action_command')
+
+
+# ------------------------------------------------------------------------------------------------ commands
+@contract('plumpy.process_states.Continue.__init__', props=['C13'])
+def continue_init(self, continue_fn, *args, **kwargs):
+    requires(forall(lambda k: implies(dhas(kwargs, k), is_str(k))))
+    modifies(fields(self))
+    raises_nothing()
+    ensures('payload', self.continue_fn is continue_fn and seq(self.args) == seq(args) and same_dict(self.kwargs, kwargs))
+    ensures('invariant', wf_continue(self))
+
+
+@contract('plumpy.process_states.Wait.__init__', props=['C13'])
+def wait_init(self, continue_fn=None, msg=None, data=None):
+    modifies(fields(self))
+    raises_nothing()
+    ensures('payload', self.continue_fn is continue_fn and self.msg is msg and self.data is data)
+
+
+@contract('plumpy.process_states.Stop.__init__', props=['C13'])
+def stop_init(self, result, successful):
+    modifies(fields(self))
+    raises_nothing()
+    ensures('payload', self.result is result and self.successful is successful)
+
+
+@contract('plumpy.process_states.Kill.__init__', props=['C13'])
+def kill_init(self, msg=None):
+    modifies(fields(self))
+    raises_nothing()
+    ensures('payload', self.msg is msg)
+
+
+# ------------------------------------------------------------------------------------------------ the step wrapper
+@contract('plumpy.utils.ensure_coroutine.<wrap>', props=['C13'])
+def ensure_coroutine_wrap(*args, **kwargs):
+    """the closure ensure_coroutine puts around a plain function: calls it exactly once with the same arguments"""
+    requires(is_heap_obj(coro_or_fn))
+    modifies(all_heap)
+    ev = calls()[len(calls()) - 1]
+    ensures('one_call', len(calls()) == old(len(calls())) + 1 and take(calls(), old(len(calls()))) == old(calls()))
+    ensures('exact_args', ev.fn is coro_or_fn and seq(ev.args) == seq(args) and same_dict_old(ev.kwargs, kwargs))
+    ensures('result', ret is attr(ev, 'result'))
+
+
+# ------------------------------------------------------------------------------------------------ states
+@spec
+def maps_command(res, cmd, sm):
+    """DESIGN D / C13: the state a command denotes"""
+    return ((implies(isinstance(cmd, Kill), type_is(res, Killed) and res.msg is cmd.msg))
+            and implies(isinstance(cmd, Stop), type_is(res, Finished) and res.result is cmd.result and res.successful is cmd.successful)
+            and implies(isinstance(cmd, Wait), type_is(res, Waiting) and res.done_callback is cmd.continue_fn and res.msg is cmd.msg and res.data is cmd.data)
+            and implies(isinstance(cmd, Continue), type_is(res, Running) and wraps(res.run_fn, cmd.continue_fn)
+                        and seq(res.args) == seq(cmd.args) and same_dict(res.kwargs, cmd.kwargs))
+            and res.state_machine is sm)
+
+
+@contract('plumpy.process_states.Running.__init__', props=['C13'])
+def running_init(self, process, run_fn, *args, **kwargs):
+    requires(isinstance(process, Process))
+    modifies(fields(self))
+    ensures('payload', self.state_machine is process and wraps(self.run_fn, run_fn) and seq(self.args) == seq(args)
+            and same_dict(self.kwargs, kwargs) and self.in_state is False)
+    raises(AssertionError, run_fn is None)
+    raises(TypeError, not callable_(run_fn))
+
+
+@contract('plumpy.process_states.Created.execute', props=['C13'])
+def created_execute(self):
+    requires(not isinstance(self.state_machine, WorkChain))
+    requires(is_tuple(self.args) and is_dict(self.kwargs))
+    modifies()
+    ensures('first_step', type_is(result, Running) and fresh(result) and wraps(result.run_fn, self.run_fn)
+            and seq(result.args) == seq(self.args) and same_dict(result.kwargs, self.kwargs)
+            and result.state_machine is self.state_machine)
+    raises(AssertionError, self.run_fn is None)
+    raises(TypeError, not callable_(self.run_fn))
+
+
+@contract('plumpy.process_states.Running.execute', props=['C13'])
+def running_execute(self):
+    requires(self._command is None)
+    requires(not isinstance(self.state_machine, WorkChain))
+    requires(is_heap_obj(self.run_fn) and is_tuple(self.args) and is_dict(self.kwargs))
+    modifies(all_heap)
+    ev = calls()[len(calls()) - 1]
+    v = attr(ev, 'awaited')
+    failed = attr(ev, 'raised') is not None
+    ensures('one_call', len(calls()) == old(len(calls())) + 1 and take(calls(), old(len(calls()))) == old(calls()))
+    ensures('exact_args', ev.fn is old(self.run_fn) and seq(ev.args) == old(seq(self.args)) and same_dict_old(ev.kwargs, self.kwargs))
+    ensures('excepted', implies(failed, type_is(result, Excepted) and result.exception is attr(ev, 'raised')))
+    ensures('command', implies(not failed and isinstance(v, Command), maps_command(result, v, self.state_machine)))
+    ensures('unsuccessful', implies(not failed and not isinstance(v, Command) and isinstance(v, UnsuccessfulResult),
+                                    type_is(result, Finished) and result.result is v.result and result.successful is False))
+    ensures('plain_value', implies(not failed and not isinstance(v, Command) and not isinstance(v, UnsuccessfulResult),
+                                   type_is(result, Finished) and result.result is v and result.successful is True))
+    ensures('not_running', self._running is False)
+    raises(Interruption, exc is attr(calls()[len(calls()) - 1], 'raised') and self._running is False)
+    raises(ValueError, isinstance(attr(calls()[len(calls()) - 1], 'awaited'), Command)
+           and not isinstance(attr(calls()[len(calls()) - 1], 'awaited'), (Kill, Stop, Wait, Continue)))
+    raises(AssertionError, isinstance(attr(calls()[len(calls()) - 1], 'awaited'), Continue)
+           and attr(calls()[len(calls()) - 1], 'awaited').continue_fn is None)
+    raises(TypeError, isinstance(attr(calls()[len(calls()) - 1], 'awaited'), Continue)
+           and not callable_(attr(calls()[len(calls()) - 1], 'awaited').continue_fn))
+
+
+@contract('plumpy.process_states.Waiting.__init__', props=['C13'])
+def waiting_init(self, process, done_callback, msg=None, data=None):
+    requires(isinstance(process, Process))
+    modifies(fields(self))
+    raises_nothing()
+    ensures('payload', self.state_machine is process and self.done_callback is done_callback and self.msg is msg
+            and self.data is data and self.in_state is False)
+    ensures('armed', isinstance(self._waiting_future, asyncio.Future) and fresh(self._waiting_future)
+            and self._waiting_future._state == 'PENDING')
+
+
+@contract('plumpy.process_states.Waiting.resume', props=['C13', 'C06'])
+def waiting_resume(self, value=NULL):
+    requires(isinstance(self._waiting_future, asyncio.Future))
+    wf = self._waiting_future
+    modifies(wf._state, wf._result)
+    raises_nothing()
+    ensures('first_resume_records', implies(old(wf._state) == 'PENDING', wf._state == 'FINISHED' and wf._result is value))
+    ensures('later_resume_ignored', implies(old(wf._state) != 'PENDING', unchanged(wf._state, wf._result)))
+    replay('first_resume_records', 'waiting_resume')
+
+
+@contract('plumpy.process_states.Waiting.execute', props=['C13', 'C06'])
+def waiting_execute(self):
+    requires(isinstance(self._waiting_future, asyncio.Future))
+    requires(not isinstance(self.state_machine, WorkChain))
+    modifies(all_heap)
+    wf = old(self._waiting_future)
+    ensures('woken', wf._state == 'FINISHED' and wf._exception is None and self._waiting_future is wf)
+    ensures('continuation', type_is(result, Running) and wraps(result.run_fn, self.done_callback)
+            and result.state_machine is self.state_machine and dlen(result.kwargs) == 0)
+    ensures('value_forwarded', implies(not isinstance(wf._result, plumpy.lang.__NULL), seq(result.args) == [wf._result]))
+    ensures('no_value', implies(isinstance(wf._result, plumpy.lang.__NULL), len(seq(result.args)) == 0))
+    raises(Interruption, old(self._waiting_future)._exception is exc and fresh(self._waiting_future) and self._waiting_future._state == 'PENDING')
+    raises(BaseException, not isinstance(exc, Interruption) and self._waiting_future is old(self._waiting_future)
+           and (old(self._waiting_future)._state == 'CANCELLED' or old(self._waiting_future)._exception is exc))
+    raises(AssertionError, self.done_callback is None)
+    raises(TypeError, not callable_(self.done_callback))
